@@ -168,8 +168,10 @@ def main_cli():
                     lst_file = "listing.lst"
 
                 try:
-                    with open_device(lst_file, "w") as f:
-                        f.write(comp.generate_listing())
+                    # Sources are UTF-8 whatever the locale is, and so is the listing
+                    # that names them (file names may hold undecodable bytes)
+                    with open_device(lst_file, "wb") as f:
+                        f.write(comp.generate_listing().encode("utf-8", "surrogateescape"))
                 except IOError as ex:
                     print(f"Could not write to '{lst_file}':\n{ex}", file=sys.stderr)
                     sys.exit(1)
